@@ -38,6 +38,8 @@ pub struct Universe {
     pub chase_in_reply: bool,
     /// AAAA before A in the additional section of referrals
     pub v6_glue_first: bool,
+    /// referrals carry address records of this family only (4 / 6; 0 = both)
+    pub glue_family: u8,
     pub description: String,
     /// a recursive server (answers every question with the truth, RA set)
     pub forwarder: Option<IpAddr>,
@@ -254,6 +256,11 @@ impl Universe {
                         }
                         if self.v6_glue_first {
                             msg.additional.sort_by_key(|r| r.rtype_with_data.rtype() != RecordType::AAAA);
+                        }
+                        match self.glue_family {
+                            4 => msg.additional.retain(|r| r.rtype_with_data.rtype() != RecordType::AAAA),
+                            6 => msg.additional.retain(|r| r.rtype_with_data.rtype() != RecordType::A),
+                            _ => {}
                         }
                         msg.authority.extend(ns);
                     }
